@@ -184,6 +184,19 @@ def check_error_shape(r, files):
                 problems.append(("position-after-file", "%s at %s (file has %d lines): %s" % (src, loc, n, m.message)))
             elif ln <= n and col > len(lines[ln - 1]) + 1:
                 problems.append(("column-after-line", "%s at %s (line has %d chars): %s" % (src, loc, len(lines[ln - 1]), m.message)))
+            elif ln <= n and lines[ln - 1]:
+                # "renders with its source line": the rendering quotes the line the position names, and
+                # puts its marker under the column the position names
+                try:
+                    parts = [t for _, t in m.format(dict(files))]
+                except Exception:
+                    continue  # reported by the callers that render whole error lists
+                want = lines[ln - 1] + "\n"
+                if want not in parts:
+                    quoted = parts[-2] if len(parts) >= 2 else None
+                    problems.append(("rendered-source-line-wrong", "%s at %s: message %r is rendered with %r, line %d of the file is %r" % (src, loc, m.message.split("\n")[0], quoted, ln, lines[ln - 1])))
+                elif not parts[-1].startswith(" " * (col - 1) + "^") or parts[-1].strip(" ^"):
+                    problems.append(("rendered-marker-wrong", "%s at %s: marker line %r" % (src, loc, parts[-1])))
     return problems
 
 
